@@ -109,7 +109,10 @@ def replay_rebinding(inputs, obl):
     hist = [['a::3', 'a%0', 'a::7%2', 'a%0'], ['a::[1 2 3]', 'a^2', 'a::+/[1.5 2.5]', 'a^2'], ['a::3', 'a*2', 'a::"ab"', 'a*2'],
             ['a::6;b::3', 'a%b', 'b::+/[0 0]', 'a%b'], ['s::2;n::3', 's*n', 's::"ab"', 's*n'], ['a::[1 2]', '+/a', 'a::[]', '+/a'],
             ['a::6;b::3;g::{b::[0 5]@x}', 'a%b', 'g(0)', 'a%b'], ['a::3;g::{a::"ab"}', 'a*2', 'g()', 'a*2'],
-            ['a::5', 't::+/a', 'a::[1 2 3]', 't::+/a'], ['f::{,+/x}', 'f(5)', 'f([1 2 3])'], ['f::{,+\\x}', 'f(5)', 'f([1 2 3])']]
+            ['a::5', 't::+/a', 'a::[1 2 3]', 't::+/a'], ['f::{,+/x}', 'f(5)', 'f([1 2 3])'], ['f::{,+\\x}', 'f(5)', 'f([1 2 3])'],
+            # NESTED operator nodes keep their own memo of the compile decision: it must not outlive the kind of value it was made for
+            ['a::2', ',a*3', 'a::"x"', ',a*3'], ['a::2;b::1', ',b%a', 'a::0%1', ',b%a'], ['f::{,x*3}', 'f(2)', 'f("x")'], ['g::{x,x*2}', 'g(3)', 'g("ab")'],
+            ['a::2', 'b::a*3', 'a::"ab"', 'b::a*3'], ['h::{,x%y}', 'h(1;2)', 'h(1;0%1)']]
 
     def run(h, stub):
         real = ki.compile_expr
